@@ -584,9 +584,9 @@ def parts(tier):
     return [
         EnumPart('int-exhaustive', run_int_enum, check_seq),
         EnumPart('type01-exhaustive', run_type01_enum, check_type01),
-        HypPart('int-seq', int_seqs(), check_seq, 4000, 90000),
-        HypPart('float-seq', float_seqs(), check_seq, 4000, 90000),
-        HypPart('type01', type01_cases(), check_type01, 2400, 60000),
+        HypPart('int-seq', int_seqs(), check_seq, 4000, 70000),
+        HypPart('float-seq', float_seqs(), check_seq, 4000, 70000),
+        HypPart('type01', type01_cases(), check_type01, 2400, 40000),
     ]
 
 
